@@ -77,7 +77,7 @@ def strat_chunks(tier):
       blocks=st.integers(0, 3),        # number of complete chunks
       extra=st.integers(0, 400),       # ragged tail length, taken modulo size
       pad=st.one_of(st.just("default"), _values(dfmt), _values(dfmt)),
-      src=st.sampled_from(["list", "iter", "stream", "gen"]),
+      src=st.sampled_from(["list", "iter", "stream", "gen", "tuple", "array", "array"]),
       kw=st.booleans(),
     ))
   return st.sampled_from(FMTS).flatmap(body)
@@ -85,7 +85,9 @@ def strat_chunks(tier):
 
 def _chunks_call(case, xs, pad):
   f = {"struct": chunks.struct, "array": chunks.array, "default": chunks}[case["strategy"]]
-  src = {"list": list, "iter": iter, "stream": Stream,
+  import array as _array
+  src = {"list": list, "iter": iter, "stream": Stream, "tuple": tuple,
+         "array": lambda v: _array.array(case["dfmt"], v),   # already packed input of the same type code
          "gen": lambda v: (x for x in v)}[case["src"]](xs)
   kwargs = {}
   if pad != "default":
